@@ -1,6 +1,6 @@
 """C05 - the EDIF reader builds exactly the design the file describes."""
 from simkit.engine import Prop
-from simkit import design_shrink
+from simkit import history, design_shrink
 from simkit.gen_hier import ScriptGen
 from simkit import corpus, textgen_edif
 from simkit.oracles.canon import named, dict_diff, _freeze
@@ -66,6 +66,7 @@ class C05(Prop):
         cfg["render"] = {"kwcase": r.choice(["lower", "camel", "upper", "mixed"]), "refcase": r.random() < 0.5,
                          "ws": r.choice(["plain", "plain", "wild"]), "comment_rate": r.choice([0.0, 0.2]),
                          "design_refcase": r.random() < 0.5}
+        cfg["prior_rejected"] = r.random() < 0.2   # an earlier, refused read in the same process
         if not cfg["lookup_cache"]:
             # without the namespace plugin there is no case-insensitive identifier index: only exact-case
             # references are a supported input of that configuration
@@ -83,6 +84,8 @@ class C05(Prop):
             d = textgen_edif.gen_design(rng, cfg["gen"])
             rs = rng.getrandbits(32)
             text = design_shrink.render("edf", d, rs, cfg["render"])
+            if cfg.get("prior_rejected"):
+                ev.extend(history.prior_rejected(rng, text, "sim://bad.edf"))
             ev.append({"op": "fs_put", "path": "sim://in.edf", "text": text, "design": d, "fmt": "edf",
                        "render": cfg["render"], "render_seed": rs})
         ev.append({"op": "parse", "path": "sim://in.edf"})
@@ -93,6 +96,8 @@ class C05(Prop):
         import simkit.listeners  # registers listener ops
 
     def before(self, w, ev):
+        if ev.get("prior"):
+            return None
         if ev["op"] == "fs_put":
             self.design = ev.get("design")
         if ev["op"] == "parse":
@@ -101,6 +106,9 @@ class C05(Prop):
 
     def after(self, w, ev, outcome, pre):
         if ev["op"] != "parse":
+            return
+        if ev.get("prior"):
+            w.count("fault.prior_read_" + ("refused" if outcome != "ok" else "accepted"))
             return
         disc = "gen" if self.design else "example"
         if outcome != "ok":
